@@ -1,7 +1,11 @@
 package pipeline
 
 import (
+	"encoding/json"
 	"fmt"
+	"os"
+	"path/filepath"
+	"sort"
 	"strings"
 
 	"pgregory.net/rapid"
@@ -258,4 +262,111 @@ func HintsFor(features map[string]int) Hints {
 		UnionDefault:    features["union-default"] > 0,
 		MinStructs:      features["container"] + features["list"],
 	}
+}
+
+// FlagsFromArgs parses generator flags given as strings (corpus/variants.json) into a Flags
+// value; flags it does not know are kept verbatim in Extra.
+func FlagsFromArgs(args []string) Flags {
+	var f Flags
+	for _, a := range args {
+		name, val := strings.TrimLeft(a, "-"), "true"
+		if i := strings.Index(name, "="); i >= 0 {
+			name, val = name[:i], name[i+1:]
+		}
+		on := val == "true"
+		switch name {
+		case "compress_paths":
+			f.Compress = on
+		case "prefer_operational_state":
+			f.PreferOperationalState = on
+		case "exclude_state":
+			f.ExcludeState = on
+		case "ignore_shadow_schema_paths":
+			f.IgnoreShadowSchemaPaths = on
+		case "generate_fakeroot":
+			f.FakeRoot = on
+		case "fakeroot_name":
+			f.FakeRootName = val
+		case "generate_simple_unions":
+			f.SimpleUnions = on
+		case "yangpresence":
+			f.YangPresence = on
+		case "generate_getters":
+			f.Getters = on
+		case "generate_append":
+			f.Append = on
+		case "generate_delete":
+			f.Delete = on
+		case "generate_rename":
+			f.Rename = on
+		case "generate_leaf_getters":
+			f.LeafGetters = on
+		case "generate_leaf_setters":
+			f.LeafSetters = on
+		case "generate_populate_defaults":
+			f.PopulateDefaults = on
+		case "shorten_enum_leaf_names":
+			f.ShortenEnumLeafNames = on
+		case "typedef_enum_with_defmod":
+			f.TypedefEnumWithDefmod = on
+		case "enum_suffix_for_simple_union_enums":
+			f.EnumSuffixSimpleUnion = on
+		case "skip_enum_deduplication":
+			f.SkipEnumDedup = on
+		case "annotations":
+			f.Annotations = on
+		case "include_model_data":
+			f.IncludeModelData = on
+		case "include_descriptions":
+			f.IncludeDescriptions = on
+		case "generate_ordered_maps":
+			f.UnorderedMaps = !on
+		case "include_schema":
+			f.NoSchema = !on
+		case "generate_path_structs":
+			f.PathStructs = on
+		default:
+			f.Extra = append(f.Extra, a)
+		}
+	}
+	return f
+}
+
+// Variant is one entry of corpus/variants.json.
+type Variant struct {
+	Name  string
+	Yang  []string
+	Flags Flags
+}
+
+// CorpusVariants reads corpus/variants.json.
+func CorpusVariants() ([]Variant, error) {
+	b, err := os.ReadFile(filepath.Join(VerifDir(), "corpus", "variants.json"))
+	if err != nil {
+		return nil, err
+	}
+	var raw struct {
+		Common   []string `json:"common"`
+		Variants map[string]struct {
+			Yang        []string `json:"yang"`
+			Flags       []string `json:"flags"`
+			PathStructs bool     `json:"path_structs"`
+		} `json:"variants"`
+	}
+	if err := json.Unmarshal(b, &raw); err != nil {
+		return nil, err
+	}
+	var names []string
+	for n := range raw.Variants {
+		names = append(names, n)
+	}
+	sort.Strings(names)
+	var out []Variant
+	for _, n := range names {
+		v := raw.Variants[n]
+		f := FlagsFromArgs(append(append([]string{}, raw.Common...), v.Flags...))
+		f.PathStructs = v.PathStructs
+		out = append(out, Variant{Name: n, Yang: v.Yang, Flags: f})
+	}
+	return out, nil
 }
